@@ -106,6 +106,10 @@ type Prog struct {
 	SelfName string `json:"selfname,omitempty"`
 	SelfDesc string `json:"selfdesc,omitempty"`
 	LateMode bool   `json:"latemode,omitempty"` // SetMode is called after the commands are defined
+	// LateUnknown / LateReqOrder - SetUnknownMode / SetRequireOrder are called on the program after its commands were
+	// defined: commands copy these two settings when they are created, so they keep the defaults (Fail, no require-order)
+	LateUnknown  bool `json:"lateunknown,omitempty"`
+	LateReqOrder bool `json:"latereqorder,omitempty"`
 	Root     *Cmd   `json:"root"`
 }
 
@@ -152,6 +156,15 @@ func Resolve(p *Prog) *Tree {
 		} else {
 			n.Unknown = parent.Unknown
 			n.ReqOrder = parent.ReqOrder
+			if parent.Parent == nil {
+				// what the root had when the command was created
+				if p.LateUnknown {
+					n.Unknown = 0
+				}
+				if p.LateReqOrder {
+					n.ReqOrder = false
+				}
+			}
 		}
 		if c.Unknown >= 0 {
 			n.Unknown = c.Unknown
@@ -442,8 +455,10 @@ func Build(p *Prog) *Built {
 	if !p.LateMode {
 		opt.SetMode(getoptions.Mode(p.Mode))
 	}
-	opt.SetUnknownMode(getoptions.UnknownMode(p.Unknown))
-	if p.ReqOrder {
+	if !p.LateUnknown {
+		opt.SetUnknownMode(getoptions.UnknownMode(p.Unknown))
+	}
+	if p.ReqOrder && !p.LateReqOrder {
 		opt.SetRequireOrder()
 	}
 	if p.MapLower {
@@ -452,6 +467,12 @@ func Build(p *Prog) *Built {
 	b.defineLevel(opt, p.Root, "")
 	if p.LateMode {
 		opt.SetMode(getoptions.Mode(p.Mode))
+	}
+	if p.LateUnknown {
+		opt.SetUnknownMode(getoptions.UnknownMode(p.Unknown))
+	}
+	if p.ReqOrder && p.LateReqOrder {
+		opt.SetRequireOrder()
 	}
 	if p.Help != "" {
 		if len(p.HelpAliases) > 0 {
